@@ -49,6 +49,15 @@ def unescape(lit):
     return bytes(out)
 
 
+# std::to_string(v) with its insignificant zeros removed:
+#   std::string s(std::to_string(v)); s.erase(s.find_last_not_of('0') + 1); if (s.back() == '.') s.pop_back(); return s;
+TRIM_RE = re.compile(
+    r"^\s*std::string\s+(\w+)\s*\(\s*std::to_string\s*\(\s*(\w+)\s*\)\s*\)\s*;\s*"
+    r"\1\s*\.\s*erase\s*\(\s*\1\s*\.\s*find_last_not_of\s*\(\s*'0'\s*\)\s*\+\s*1\s*\)\s*;\s*"
+    r"if\s*\(\s*\1\s*\.\s*back\s*\(\s*\)\s*==\s*'\.'\s*\)\s*\1\s*\.\s*pop_back\s*\(\s*\)\s*;\s*"
+    r"return\s+\1\s*;\s*$", re.S)
+
+
 class P:
     def __init__(self, toks):
         self.t = toks
@@ -184,8 +193,12 @@ def translate_header(path, prefix):
                 fname = (params[1].split() + [None])[1]
             i = body.index("{", dm.end() - 1)
             j = cxx_mini.match_brace(body, i)
-            toks = cxx_mini.tokenize(body[i + 1:j - 1])
-            info["disp"] = P(toks).body(fname, pname)
+            tm = TRIM_RE.match(body[i + 1:j - 1])
+            if tm and kind == "terminal" and pname and tm.group(2) == pname:
+                info["disp"] = [("text", [("to_string_param_trim",)])] * 4
+            else:
+                toks = cxx_mini.tokenize(body[i + 1:j - 1])
+                info["disp"] = P(toks).body(fname, pname)
             if kind == "function" and any(e[0] == "text" and any(p[0] != "lit" for p in e[1]) for e in info["disp"]):
                 raise OutsideSubset("to_string in a function template")
         except (OutsideSubset, IndexError, ValueError) as e:
@@ -270,7 +283,8 @@ def emit(infos, dflt, escapes=False):
         ps = []
         for p in e[1]:
             ps.append("PLit %s" % zl(p[1]) if p[0] == "lit" else
-                      {"to_string_param": "PToString", "to_string_int_param": "PToStringInt"}[p[0]])
+                      {"to_string_param": "PToString", "to_string_int_param": "PToStringInt",
+                       "to_string_param_trim": "PToStringTrim"}[p[0]])
         return "TText [" + "; ".join(ps) + "]"
 
     def cmt(e):
